@@ -142,6 +142,53 @@ func runC06(c *fw.Ctx) {
 		})
 	}
 
+	for i := 0; i < c.Pick(4000, 40000); i++ { // sizes up to 7: Slice, Patch, Concat, Reshape, Flatten, Broadcast
+		c.Case(func(k *fw.K) {
+			shape := BigShape(k.Rng, 1, 500)
+			k.Count("big_shape_cases", 1)
+			switch k.Rng.Intn(5) {
+			case 0:
+				index := make([]ref.Range, k.Rng.Intn(len(shape)+1))
+				for q := range index {
+					rs := allRanges(shape[q])
+					index[q] = rs[k.Rng.Intn(len(rs))]
+				}
+				c06Slice(k, shape, index)
+			case 1:
+				src := make([]int, len(shape))
+				for q := range src {
+					src[q] = 1 + k.Rng.Intn(shape[q])
+				}
+				index := make([]ref.Range, k.Rng.Intn(len(shape)+1))
+				for q := range index {
+					if k.Rng.Intn(3) == 0 {
+						continue
+					}
+					off := k.Rng.Intn(shape[q] - src[q] + 1)
+					index[q] = ref.Range{From: off, To: off + src[q]}
+				}
+				c06Patch(k, shape, src, index)
+			case 2:
+				if ref.Prod(shape) <= 120 {
+					c06Concat(k, shape, k.Rng.Intn(len(shape)), 2+k.Rng.Intn(3))
+				}
+			case 3:
+				ts := shapesWithProduct(ref.Prod(shape), 4)
+				target := ts[k.Rng.Intn(len(ts))]
+				c06Simple(k, ref.Instr{Op: "reshape", Shape: target}, shape, "reshape/"+shapeKey(shape)+"/"+shapeKey(target))
+			default:
+				src := ref.CopyInts(shape)
+				for q := range src {
+					if k.Rng.Intn(2) == 0 {
+						src[q] = 1
+					}
+				}
+				src = src[k.Rng.Intn(len(src)):]
+				c06Simple(k, ref.Instr{Op: "broadcast", Shape: shape}, src, "broadcast/"+shapeKey(src)+"/"+shapeKey(shape))
+			}
+		})
+	}
+
 	// ---- Concat ----
 	for _, base := range Shapes(1, c.Pick(3, 4), 3) {
 		for dim := range base {
